@@ -41,8 +41,10 @@ Targets ==
 RefinePreserves == phase = 1 => \A V \in Targets : SameFunction(Refine(Poly(U, P), V), Poly(U, P))
 RefineRational == phase = 1 => \A V \in Targets :
      LET c == Curve(U, P, WGen1(Npts(U))) IN SameFunction(Refine(c, V), c)
-CoarsenInverts == phase = 1 => \A V \in Targets :
-     LET c == Refine(Poly(U, P), V) IN Representable(c, U) /\ Coarsen(c, U) = Poly(U, P)
+CoarsenInverts == phase = 1 => \A V \in Targets :    \* (tolerant of arithmetic that left the integer range: "unknown" is not "no")
+     LET c == Refine(Poly(U, P), V) IN
+     /\ Limits(c.U) = Limits(U) /\ Refines(c.U, U) /\ SameFunction(c, CoarsenCandidate(c, U))
+     /\ Coarsen(c, U) = Poly(U, P)
 CoarsenRefuses == phase = 1 => \* a generic perturbation of a refined curve is not representable
    \A V \in Targets : V # U =>
      LET c  == Refine(Poly(U, P), V)
